@@ -1254,9 +1254,19 @@ func (v *Validator) typeOfSet(env *requestEnv, n ast.NodeTypeSet, caps capabilit
 }
 
 func (v *Validator) typeOfExtensionCall(env *requestEnv, n ast.NodeTypeExtensionCall, caps capabilitySet) (cedarType, capabilitySet, error) {
-	sig := extFuncTypes[n.Name]
+	sig, known := extFuncTypes[n.Name]
 
 	var errs []error
+	if !known {
+		// an unknown function always fails at run time, whatever its arguments are
+		for _, arg := range n.Args {
+			if _, _, err := v.typeOfExpr(env, arg, caps); err != nil {
+				collectErrors(&errs, err)
+			}
+		}
+		errs = append(errs, fmt.Errorf("`%s` is not a known extension function or method", n.Name))
+		return nil, caps, errors.Join(errs...)
+	}
 
 	if len(n.Args) != len(sig.argTypes) {
 		// Still typecheck all args to collect nested errors (matches Rust behavior)
